@@ -251,3 +251,177 @@ Definition explain (c : case) : list lres * Z * list Z :=
   let d := fst (float64_draw g) in
   (map (fun v => get_leader rng Concrete.shuffle Concrete.iter g (v_ops v)) (c_views c),
    d, checklist (c_index c) (draw_lt d (c_p_num c) (c_p_log c))).
+
+(* ====================================================================================== *)
+(* Call histories on ONE executor instance                                                 *)
+(* ====================================================================================== *)
+(* Production keeps one coordinationExecutor per wallet and calls getSeed / getLeader /
+   getActionsChecklist on it for every coordination window.  The only executor state these
+   methods can see is the wallet's signingGroupOperators (a slice shared with the caller).  As
+   written, neither method assigns a field of the executor or writes through that slice:
+   getLeader collects the operators into a FRESH slice (make + append) and sorts / shuffles
+   that one.  The executor is modelled as a state machine whose state is the operator list;
+   a call returns the state unchanged and the answer.  Go's map iteration order may differ
+   from call to call, so every history entry carries its own [iter] oracle. *)
+Record hentry := {
+  e_idx : Z;                        (* window index handed to getActionsChecklist *)
+  e_seed : list N;                  (* coordination seed handed to both methods *)
+  e_iter : list N -> list N         (* this call's iteration order over allOperators.Set() *)
+}.
+
+Section Executor.
+  Variable rngT : Type.
+  Variable mkrng : Z -> rngT.
+  Variable shuffle : rngT -> list N -> list N.
+  Variable heartbeat_of : rngT -> bool.
+
+  (* the pure function: what a member with operator view [ops] answers for one window *)
+  Definition answer_of (ops : list N) (e : hentry) : lres * list Z :=
+    let g := mkrng (seed_int64 (e_seed e)) in
+    (get_leader rngT shuffle (e_iter e) g ops, checklist (e_idx e) (heartbeat_of g)).
+
+  (* one getLeader + getActionsChecklist round on the executor in state [st] *)
+  Definition exec_call (st : list N) (e : hentry) : list N * (lres * list Z) :=
+    (st, answer_of st e).
+
+  Fixpoint run_history (st : list N) (h : list hentry) : list N * list (lres * list Z) :=
+    match h with
+    | [] => (st, [])
+    | e :: t =>
+        let '(st1, a) := exec_call st e in
+        let '(st2, r) := run_history st1 t in
+        (st2, a :: r)
+    end.
+End Executor.
+
+(* the concrete executor: Go's math/rand, map iteration in any fixed order *)
+Definition concrete_heartbeat_of (p_num p_log : Z) (g : rng) : bool :=
+  draw_lt (fst (float64_draw g)) p_num p_log.
+Definition concrete_entry (w : Z * list N) : hentry :=
+  {| e_idx := fst w; e_seed := snd w; e_iter := Concrete.iter |}.
+Definition concrete_answer (p_num p_log : Z) (ops : list N) (w : Z * list N) : lres * list Z :=
+  answer_of rng rng_seed Concrete.shuffle (concrete_heartbeat_of p_num p_log) ops (concrete_entry w).
+(* (final operator list, answers) of the history [h] of (window index, seed) calls *)
+Definition concrete_run (p_num p_log : Z) (ops : list N) (h : list (Z * list N))
+  : list N * list (lres * list Z) :=
+  run_history rng rng_seed Concrete.shuffle (concrete_heartbeat_of p_num p_log) ops
+    (map concrete_entry h).
+
+(* ---------- history cases ---------- *)
+(* one round (getSeed, getLeader, getActionsChecklist) of one member for coordination block
+   k_block, on the executor it has been using all along *)
+Record hcall := {
+  k_block : Z;             (* coordination block *)
+  k_index : Z;             (* window.index() computed by the implementation *)
+  k_seed_exp : list N;     (* sha256(pkh ++ hash of block (k_block - shift)), by the driver *)
+  k_draw : Z;              (* 2^63 * first Float64 of the generator seeded by k_seed_exp, by the driver *)
+  k_asked : Z;             (* the block this getSeed call asked the chain for (-1: none / several) *)
+  k_seed : list N;         (* what getSeed returned *)
+  k_leader : lres;         (* getLeader(that seed) *)
+  k_checklist : list Z     (* getActionsChecklist(index, that seed) *)
+}.
+Record hmember := {
+  m_ops : list N;          (* the signingGroupOperators slice handed to the executor, as ranks *)
+  m_ops_after : list N;    (* the same slice as the caller sees it after the last call *)
+  m_calls : list hcall     (* this member's history, oldest first *)
+}.
+Record hcase := { h_p_num : Z; h_p_log : Z; h_members : list hmember }.
+
+Definition all_calls (h : hcase) : list hcall := flat_map m_calls (h_members h).
+
+(* the same wallet (one case = one wallet), the same window, the same safe block hash *)
+Definition key_eqb (a b : hcall) : bool :=
+  (k_block a =? k_block b) && listN_eqb (k_seed_exp a) (k_seed_exp b).
+Definition same_answer (a b : hcall) : bool :=
+  lres_eqb (k_leader a) (k_leader b) && listZ_eqb (k_checklist a) (k_checklist b).
+Definition hleader_ok (ops : list N) (k : hcall) : bool :=
+  match ops, k_leader k with
+  | [], _ => true
+  | _, Leader o => memN o ops
+  | _, LPanic => false
+  end.
+
+(* executable form of the property over histories: at EVERY position of EVERY member's
+   history the leader is one of that member's operators and the checklist has the demanded
+   shape; any two rounds -- of two members or of one member, at any two positions, whatever
+   came before them -- for the same window and safe block hash gave the same leader and
+   checklist (in particular: the members agree position by position when they went through
+   the same windows, a fresh member agrees with a long-running one, and asking again repeats
+   the answer) *)
+Definition hspec_ok (h : hcase) : bool :=
+  let ks := all_calls h in
+  forallb (fun m => forallb (hleader_ok (m_ops m)) (m_calls m)) (h_members h)
+  && forallb (fun a => forallb (fun b => implb (key_eqb a b) (same_answer a b)) ks) ks
+  && forallb (fun k => checklist_ok (k_index k)
+                         (draw_lt (k_draw k) (h_p_num h) (h_p_log h)) (k_checklist k)) ks.
+
+Fixpoint answers_eqb (a b : list (lres * list Z)) : bool :=
+  match a, b with
+  | [], [] => true
+  | (l1, c1) :: a', (l2, c2) :: b' => lres_eqb l1 l2 && listZ_eqb c1 c2 && answers_eqb a' b'
+  | _, _ => false
+  end.
+
+(* oracle / bookkeeping values of one round *)
+Definition hcall_agree (ops : list N) (k : hcall) : bool :=
+  let g := rng_seed (seed_int64 (k_seed_exp k)) in
+  let '(d, okd) := float64_draw g in
+  okd
+  && (k_index k =? window_index (k_block k))
+  && (d =? k_draw k)
+  && (k_asked k =? safe_block (k_block k))
+  && listN_eqb (k_seed k) (k_seed_exp k)
+  && snd (shuffle_with g (sort_uniq ops)).
+
+(* the implementation's answers along the history are the model's run of the same history on
+   one executor, and the caller's operator slice is what the model's final state says *)
+Definition hmember_agree (p_num p_log : Z) (m : hmember) : bool :=
+  let '(st, ans) := concrete_run p_num p_log (m_ops m)
+                      (map (fun k => (window_index (k_block k), k_seed_exp k)) (m_calls m)) in
+  listN_eqb (m_ops_after m) st
+  && forallb (hcall_agree (m_ops m)) (m_calls m)
+  && answers_eqb (map (fun k => (k_leader k, k_checklist k)) (m_calls m)) ans.
+
+Definition hagree (h : hcase) : bool :=
+  forallb (hmember_agree (h_p_num h) (h_p_log h)) (h_members h).
+
+Definition hwell_formed (h : hcase) : bool :=
+  (0 <? h_p_num h) && (0 <=? h_p_log h)
+  && forallb (fun k => bytes_ok (k_seed_exp k) && (0 <=? k_block k) && (k_block k <? two64))
+       (all_calls h)
+  && match h_members h with
+     | [] => false
+     | m0 :: rest => forallb (fun m => same_set (m_ops m) (m_ops m0)) rest
+     end.
+
+Definition hjudge (h : hcase) : verdict :=
+  if negb (hwell_formed h) then BadCase else decide (hspec_ok h) (hagree h).
+
+(* the history case the model itself produces: every member (operator view, list of
+   (coordination block, seed) rounds) run on one model executor *)
+Definition model_hcall (p_num p_log : Z) (wa : (Z * list N) * (lres * list Z)) : hcall :=
+  let '((block, seed), (ld, cl)) := wa in
+  {| k_block := block; k_index := window_index block; k_seed_exp := seed;
+     k_draw := fst (float64_draw (rng_seed (seed_int64 seed)));
+     k_asked := safe_block block; k_seed := seed; k_leader := ld; k_checklist := cl |}.
+Definition model_hmember (p_num p_log : Z) (mw : list N * list (Z * list N)) : hmember :=
+  let '(ops, ws) := mw in
+  let '(st, ans) := concrete_run p_num p_log ops
+                      (map (fun w => (window_index (fst w), snd w)) ws) in
+  {| m_ops := ops; m_ops_after := st; m_calls := map (model_hcall p_num p_log) (combine ws ans) |}.
+Definition model_hcase (p_num p_log : Z) (ms : list (list N * list (Z * list N))) : hcase :=
+  {| h_p_num := p_num; h_p_log := p_log; h_members := map (model_hmember p_num p_log) ms |}.
+
+(* ---------- what the driver emits: a one-window case or a history case ---------- *)
+Inductive anycase := CView (c : case) | CHist (h : hcase).
+Definition judge_any (a : anycase) : verdict :=
+  match a with CView c => judge c | CHist h => hjudge h end.
+(* --replay: the model's own output (per member: final operator list and answers) *)
+Definition explain_any (a : anycase)
+  : (list lres * Z * list Z) + list (list N * list (lres * list Z)) :=
+  match a with
+  | CView c => inl (explain c)
+  | CHist h => inr (map (fun m => concrete_run (h_p_num h) (h_p_log h) (m_ops m)
+                       (map (fun k => (window_index (k_block k), k_seed_exp k)) (m_calls m)))
+                     (h_members h))
+  end.
